@@ -221,12 +221,17 @@ CONTRACTS = {
 
  M + '_get_pair_assignments_with_none': dict(
     locals={'pair_assignments': ('list', 'ref')},
-    requires=['sizes_ok(self)', 'pairs_ok(self)', 'has_vars(self.pairs)'],
-    loops={0: dict(invariant=['len(pair_assignments) >= _k', 'forall(t, 0, len(pair_assignments), pair_assignments[t] == None or is_model_pair(self, pair_assignments[t]))']),
-           1: dict(invariant=['len(pair_assignments) >= _k0 + ite(added, 1, 0)', 'forall(t, 0, len(pair_assignments), pair_assignments[t] == None or is_model_pair(self, pair_assignments[t]))'])},
+    requires=['sizes_ok(self)', 'pairs_ok(self)', 'has_vars(self.pairs)', ('reported-values-are-0-or-1', BINARY_VALUES),
+              ('at-most-one-set-variable-per-student', 'forall(s, 0, self.num_students, solsum(self.pairs[s]) <= 1)')],
+    defs={'entry_ok': (['t'], 'pair_assignments[t] == None or (is_model_pair(self, pair_assignments[t]) and pair_assignments[t].student_index == t)'),
+          'row': ([], 'self.pairs[_k0]')},
+    loops={0: dict(invariant=[('one-entry-per-student-so-far', 'len(pair_assignments) == _k'), 'forall(t, 0, len(pair_assignments), entry_ok(t))']),
+           1: dict(invariant=[('entries-so-far', 'len(pair_assignments) == _k0 + solsum_upto(row(), _k)'), ('added-iff-a-variable-was-set', 'added == (solsum_upto(row(), _k) > 0)'),
+                              'solsum_upto(row(), _k) >= 0', 'forall(t, 0, len(pair_assignments), entry_ok(t))'])},
+    use_lemmas={'loop1.body_end': [('SUM/prefix-le', {'f': 'sol_terms(row(), len(row()))', 'k': '_k1 + 1', 'n': 'len(row())'}, 'if-applicable')]},
     returns=('list', 'ref'),
-    ensures=[('entries-are-pairs-of-the-instance-or-None', 'forall(t, 0, len(result), result[t] == None or is_model_pair(self, result[t]))'),
-             ('at-least-one-entry-per-student', 'len(result) >= self.num_students')]),
+    ensures=[('entry-i-is-student-i\'s-pair-or-None', 'forall(t, 0, len(result), result[t] == None or (is_model_pair(self, result[t]) and result[t].student_index == t))'),
+             ('one-entry-per-student', 'len(result) == self.num_students')]),
 
  # ---- C14 / C11: what the result text shows.  status_code(self.pulp_status) is the code of the stored status (1 = Optimal, 0 = Not Solved).
  M + 'get_results': dict(
@@ -234,7 +239,7 @@ CONTRACTS = {
     ghost={'pc': 'bool'},          # were project closures allowed (-pc)?  Supplied by the caller; only the validity statement uses it
     requires=['sizes_ok(self)', 'pairs_ok(self)', 'has_vars(self.pairs)', 'self.num_lecturers >= 1',
               'short_or_long == Output_type.SHORT or short_or_long == Output_type.LONG',
-              'not stable_correctness',          # the stability_correct line (check_stability on the solution) is covered by C06 + bounded runs
+              ('stability-check-needs-two-sided-lists', 'implies(stable_correctness, two_sided(self))'),
               # T3 + the constraints (composition lemma C01/reported-matching-valid): when the stored status is Optimal the reported
               # values are 0/1 and, counted over the pairs of each student / project / lecturer, respect the quotas
               ('optimal-solution-is-binary', 'implies(code() == 1, ' + BINARY_VALUES + ')'),
